@@ -173,6 +173,16 @@ func TestC15(t *testing.T) {
 		}
 	}
 
+	// a peer that sends its first frames right behind its header
+	for i := 0; i < r.Pick(36, 600); i++ {
+		n := 1 + rnd.Intn(6)
+		sizes := make([]int, n)
+		for j := range sizes {
+			sizes[j] = 1 + rnd.Intn([]int{40, 600, 5000}[rnd.Intn(3)])
+		}
+		cases = append(cases, mon.CaseSpec{Name: "eager", Spec: spec{Kind: "eager", Tr: streamTrs[i%len(streamTrs)], Role: roles[(i/len(streamTrs))%len(roles)],
+			Sock: []string{"xpair", "xpull", "xbus"}[rnd.Intn(3)], Seg: []string{"at-once", "late-read"}[rnd.Intn(2)], Sizes: sizes}})
+	}
 	// several connections of one process written at the same time
 	for i := 0; i < r.Pick(18, 400); i++ {
 		cases = append(cases, mon.CaseSpec{Name: "conc", Spec: spec{Kind: "conc", Tr: []string{"ipc", "tcp", "tls+tcp"}[i%3], Sizes: []int{8 + rnd.Intn(12)}}})
@@ -199,6 +209,8 @@ func TestC15(t *testing.T) {
 			caseWS(c, sp)
 		case "conc":
 			caseConc(c, sp)
+		case "eager":
+			caseEager(c, sp)
 		}
 		hx.LedgerCheck(c)
 	})
